@@ -4,7 +4,7 @@ import json, subprocess, sys, os
 ROOT = os.path.dirname(os.path.abspath(__file__))
 sys.path.insert(0, ROOT)
 from checks import CHECKS
-from manifest_meta import META, NOT_APPLICABLE_REASON, HOOK_COMMITS
+from manifest_meta import META, NOT_APPLICABLE_REASON, HOOK_COMMITS, FIX_COMMITS
 
 props = [json.loads(l)["id"] for l in open(os.path.join(ROOT, "properties.jsonl"))]
 checks = []
@@ -41,7 +41,7 @@ manifest = {
         "kind_free_text": "Go test binary (pgregory.net/rapid v1.3.0 stateful/property-based generators, exhaustive enumerators, cooperative scheduler, fault injectors, native go fuzz targets) driven by run.py",
     }],
     "checks": checks,
-    "notes": "One family of technique: property-based testing / fuzzing against explicit oracles (reference model, round-trip, differential, history invariants). See DESIGN.md. known_findings.txt lists recorded defects and repaired ones.",
+    "notes": "One family of technique: property-based testing / fuzzing against explicit oracles (reference model, round-trip, differential, history invariants). See DESIGN.md. known_findings.txt lists recorded defects and repaired ones. Unguarded fix: commits in /repo (each found by a check first): " + " ".join(FIX_COMMITS) + ".",
     "not_applicable": na,
 }
 json.dump(manifest, open(os.path.join(ROOT, "MANIFEST.json"), "w"), indent=1)
